@@ -33,6 +33,8 @@ func init() {
 			{ID: "C13.11", Desc: "the freshness record used for the stale-if-error window is the stored response's own (never the made-up record of a request max-age=0)", Run: func(c *Ctx) { ruleC11_2(c); renameRule(c, "C11.2", "C13.11") }, MinSites: 1},
 			{ID: "C13.12", Desc: "every origin exchange of the hit path ends in the validation handler", Run: func(c *Ctx) { ruleHitNeverRefetchesAsMiss(c, "C13.12") }, MinSites: 1},
 			{ID: "C13.13", Desc: "a signed stale-if-error value opens no window", Run: func(c *Ctx) { ruleDeltaSecondsUnsigned(c, "C13.13") }, MinSites: 1},
+			{ID: "C13.14", Desc: "the error reply's header fields do not decide whether stale-if-error applies", Run: func(c *Ctx) { ruleSIEGuardIgnoresErrorReplyHeader(c, "C13.14") }, MinSites: 1},
+			{ID: "C13.15", Desc: "each stale-if-error directive opens its own window (no sum over the stored response's and the request's)", Run: func(c *Ctx) { ruleSIEWindowPerDirective(c, "C13.15") }, MinSites: 1},
 		},
 	})
 }
@@ -319,14 +321,16 @@ func ruleC13_5(c *Ctx) {
 	}
 	vh := c.A.F("validationHandler")
 	pr := c.An.Prune(vh, AssumeKeys(map[string]bool{not304: false}))
-	rAge := c.An.MustPass(pr, c.An.IsServeReturn, func(in ssa.Instruction) bool { return c.An.CallsRole(in, "ageSet") })
-	rSt := c.An.MustPass(pr, c.An.IsServeReturn, func(in ssa.Instruction) bool {
+	// (the marking may sit in a helper that builds the response to return: a call whose callees all pass the site counts)
+	as := AssumeKeys(map[string]bool{not304: false})
+	rAge := c.An.MustPass(pr, c.An.IsServeReturn, c.An.KUnder("AGE-SET", "sie", as, func(in ssa.Instruction) bool { return c.An.CallsRole(in, "ageSet") }))
+	rSt := c.An.MustPass(pr, c.An.IsServeReturn, c.An.KUnder("STATUS-STALE", "sie", as, func(in ssa.Instruction) bool {
 		if !c.An.CallsRole(in, "statusApply") {
 			return false
 		}
 		v, _, ok := c.An.StatusOfCall(callOf(in))
 		return ok && v == "STALE"
-	})
+	}))
 	if rAge.Targets == 0 {
 		c.Undecided("C13.5", "sie-marking", "the stale-if-error return exists", "no unvalidated return of the stored response in the handler")
 		return
